@@ -489,6 +489,62 @@ func (m c06) partial(c *Ctx, p *c06payload, schema *jsonapi.Schema, data []byte)
 	}
 }
 
+// mixedArray: an array payload whose elements are of two types that use the SAME attribute names with different
+// kinds. Every element is read as a resource of the type its own "type" member names.
+func (m c06) mixedArray(c *Ctx, r *RNG, t *TypeSpec) {
+	if len(t.Attrs) == 0 {
+		return
+	}
+	t1 := *t
+	t1.Rels = nil
+	t2 := TypeSpec{Name: t.Name + "-2", Wrapped: !t.Wrapped}
+	for i, a := range t.Attrs {
+		t2.Attrs = append(t2.Attrs, AttrSpec{Name: a.Name, Kind: allKinds[(i*5+int(strSeed(a.Name)%7))%len(allKinds)], Null: !a.Null})
+	}
+	s := &SchemaSpec{Types: []TypeSpec{t1, t2}}
+	order := []*TypeSpec{&s.Types[0], &s.Types[1], &s.Types[0], &s.Types[1]}
+	if r.Bool() {
+		order = []*TypeSpec{&s.Types[1], &s.Types[0], &s.Types[1]}
+	}
+	var parts []string
+	for i, ty := range order {
+		p := &c06payload{Type: *ty, ID: fmt.Sprint("m", i), Attrs: map[string]string{}, Rels: map[string]string{}}
+		for _, a := range ty.Attrs {
+			p.Attrs[a.Name] = validLiteral(r, a)
+		}
+		parts = append(parts, string(p.bytes()))
+	}
+	body := "[" + strings.Join(parts, ",") + "]"
+	var col jsonapi.Collection
+	var err error
+	if pi := Guard(func() { col, err = jsonapi.UnmarshalCollection([]byte(body), buildSchema(s)) }); pi != nil {
+		c.Violate("panic@"+pi.Frame+"/"+panicClass(pi.Val)+"/mixed-array", "%s; payload %s", pi, clip(body, 600))
+		return
+	}
+	c.Count("mixed_type_arrays")
+	if err != nil {
+		c.Violate("mixed-array-rejected", "an array of valid resources of two types is refused: %v; payload %s", err, clip(body, 600))
+		return
+	}
+	if col.Len() != len(order) {
+		c.Violate("mixed-array-length", "%d elements, payload has %d", col.Len(), len(order))
+		return
+	}
+	for i, ty := range order {
+		res := col.At(i)
+		if n := res.GetType().Name; n != ty.Name {
+			c.Violate("type-name/mixed-array", "element %d has type %q, its payload says %q; payload %s", i, n, ty.Name, clip(body, 600))
+			return
+		}
+		for _, a := range ty.Attrs {
+			if _, good := valFromGo(a.Kind, a.Null, res.Get(a.Name)); !good {
+				c.Violate("ill-typed-attribute/mixed-array", "element %d (%s) attribute %q holds %s, its type declares %s; payload %s", i, ty.Name, a.Name, describeGo(res.Get(a.Name)), kindName(a.Kind, a.Null), clip(body, 600))
+				return
+			}
+		}
+	}
+}
+
 // ---- literal generators
 
 func intLiterals(r *RNG, k int) []string {
@@ -518,7 +574,7 @@ func intLiterals(r *RNG, k int) []string {
 	return out
 }
 
-var stringLiterals = []string{`""`, `"a"`, `"A"`, `"😀"`, `"\n\t\r\b\f"`, `"\/"`, `"\\"`, `"\""`, `"é"`, `"日本語"`, `"😀"`, `"\u0000"`, `"a\u0000b"`, `"<>&"`, `"<"`, `"\ud800"`, `"null"`, `"5"`, `"true"`, `" "`, `"é"`, `" "`}
+var stringLiterals = []string{`"\ud83d\ude00"`, `"a\ud83d\ude00b"`, `"\uD83D\uDE00\uD83D\uDE00"`, `"\ud83d\ude00\u00e9\u65e5"`, `"\udbff\udfff"`, `""`, `"a"`, `"A"`, `"😀"`, `"\n\t\r\b\f"`, `"\/"`, `"\\"`, `"\""`, `"é"`, `"日本語"`, `"😀"`, `"\u0000"`, `"a\u0000b"`, `"<>&"`, `"<"`, `"\ud800"`, `"null"`, `"5"`, `"true"`, `" "`, `"é"`, `" "`}
 
 var otherLiterals = []string{"null", "true", "false", "[]", "{}", "[1]", `{"a":1}`, "5", `"5"`, "0", `""`, "1.5", `"true"`, `[null]`}
 
@@ -588,6 +644,7 @@ func (m c06) Case(c *Ctx, r *RNG) {
 	// payloads: a random type, each present attribute with a literal of its own kind (mostly) or a foreign one
 	s := genSchema(r, genOpts{MaxTypes: 1, MaxAttrs: 5, MaxRels: 3, AllowWrap: true})
 	t := s.Types[0]
+	m.mixedArray(c, r, &t)
 	for rep := 0; rep < 6; rep++ {
 		p := &c06payload{Type: t, ID: genID(r), Attrs: map[string]string{}, Rels: map[string]string{}, Extra: r.Chance(1, 4)}
 		if r.Chance(1, 6) {
